@@ -223,8 +223,8 @@ def well_formed(pattern, tool):
     if p.endswith('/'):
         p = p[:-1]
     comps = p.split('/')
-    if not p or any(c == '' for c in comps) or '\\' in p:
-        return False
+    if not p or any(c == '' for c in comps) or '\\' in p or any(ch in p for ch in '[]{}'):
+        return False                # character classes / alternations: fselect takes the brackets literally; the tools do not — outside
     for k, c in enumerate(comps):
         if '**' in c and (c != '**' or k == len(comps) - 1):
             return False
